@@ -6,6 +6,7 @@ from .. import shared
 from ..mirq import q_of
 from .exprs import same, show
 from . import client_rules as R
+from ..absint import owning_functions
 
 FP_T = "stun_rs::attributes::stun::fingerprint::Fingerprint"
 DFP_T = "stun_rs::attributes::stun::fingerprint::DecodableFingerprint"
@@ -880,7 +881,7 @@ def r18_1_who_reads(ctx, prog, rule="R18.1"):
             for pl in places:
                 for e in pl["p"]:
                     if e["k"] == "field" and e.get("adt") == DC and e.get("name") in ("validation", "unknown_data", "not_ignore", "key"):
-                        readers.setdefault(e["name"], set()).add(b.path)
+                        readers.setdefault(e["name"], set()).update(owning_functions(prog, b))
     allowed_common = [r"^stun_rs::context::DecoderContextBuilder::", r"^<stun_rs::context::DecoderContext as std::(fmt::Debug|clone::Clone|cmp::PartialEq|default::Default)",
                       r"^<stun_rs::context::DecoderContext as std::cmp::Eq"]
     allowed = {
@@ -901,9 +902,9 @@ def r18_1_who_reads(ctx, prog, rule="R18.1"):
         for c in b.calls():
             m = re.search(r"^stun_rs::context::DecoderContext::(validate|with_unknown_data|key)$", c.callee_path)
             if m:
-                callers[m.group(1)].add(b.path)
+                callers[m.group(1)] |= owning_functions(prog, b)
             if re.search(r"AttributeDecoderContext::<'_>::context$|AttributeDecoderContext::context$", c.callee_path):
-                ctx_callers.add(b.path)
+                ctx_callers |= owning_functions(prog, b)
     ctx.ob(rule, "callers:validate", callers["validate"] == {"stun_rs::context::validate_attribute"}, "validate() called in %s" % sorted(callers["validate"]))
     ctx.ob(rule, "callers:with_unknown_data", callers["with_unknown_data"] == {"stun_rs::context::MessageDecoder::decode"},
            "with_unknown_data() called in %s" % sorted(callers["with_unknown_data"]))
